@@ -313,8 +313,14 @@ func RTT(sc *Scn, r *Result, i int) []Issue {
 		// a destination reply may legitimately replace an earlier non-destination one
 		if got < want-1000 || got > want+tol {
 			ok := false
+			kind := Info(sc.Variant).Kind
+			firstIsDest := ProvesArrival(kind, first.Form, first.From == sc.Target())
 			for k := range ds {
 				d := &ds[k]
+				// (only an earlier NON-destination reply can be replaced: once the destination's own reply has been accepted, later copies do not count)
+				if firstIsDest {
+					break
+				}
 				if d.TTL == h.TTL && d.From == h.Addr && h.Dest && ProvesArrival(Info(sc.Variant).Kind, d.Form, d.From == sc.Target()) {
 					w := d.AtNs - st[h.TTL]
 					if got >= w-1000 && got <= w+tol {
